@@ -39,6 +39,7 @@ def check(ctx):
                     pred_label="edge `try_wait()` is true / `park()` is Ok")
     handshake_waiter(ctx, W, Call(re.escape(S) + "::post"), "handshake", "permit", park_err, exits_kind="ret+trigger")
     handshake_waker(ctx, S + "::wakeup_one", Call(re.escape(S) + "::post"), "waker", "permit")
+    syncblocker_rules(ctx)      # the handshake primitives themselves (release is consumed atomically by exactly one side)
     ctx.order(S + "::wakeup_one", Call(SEGQ + "pop", on=S + ".to_wake"), Call(re.escape(SB) + "::unpark"), "pop-then-unpark", "the waiter that is unparked was dequeued")
     # post
     P = S + "::post"
@@ -52,36 +53,76 @@ def check(ctx):
                 lambda a: (a.kind == "cmp" and a.op == "Lt" and fa(a.a) and is_const(0)(a.b)) or (a.kind == "cmp" and a.op == "Gt" and fa(a.b) and is_const(0)(a.a)),
                 "post-wakes-only-waiters", "post pops a waiter only when the old count was negative (a waiter is guaranteed to be queued)",
                 pred_label="edge `cnt.fetch_add(1) < 0`")
-    # try_wait: decrement only by CAS behind cnt > 0
     T = S + "::try_wait"
-    cas = A("compare_exchange(_weak)?")
-    ctx.guarded(T, Call(cas, on=S + ".cnt"), lambda a: a.kind == "cmp" and a.op in ("Gt",) and is_const(0)(a.b) or (a.kind == "cmp" and a.op == "Lt" and is_const(0)(a.a)),
-                "cas-only-if-positive", "try_wait attempts the decrement only while the observed count is > 0 (never takes a permit that is not there)",
-                pred_label="edge `cnt > 0`")
-    def ret_true(g):
-        return [pt for pt in g.points() if not g.is_term(pt) and g.node(pt)["s"] == "=" and not g.node(pt)["l"]["p"] and g.node(pt)["l"]["l"] == 0
-                and g.node(pt)["rv"]["r"] == "use" and const_int(g, g.node(pt)["rv"]["o"]) == 1]
-    ctx.guarded(T, ret_true, variant_of_call(cas, "Ok"), "true-only-on-cas-ok", "try_wait reports success only when its CAS succeeded", pred_label="edge CAS is Ok")
-    ctx.never(T, SB_PARK, "never-blocks", "try_wait never blocks")
-    # the CAS stores cnt-1
-    f = ctx.fn("R-EXIT", T, "cas-decrements-by-one")
-    if f is not None:
-        ok = False; site = None
-        for pt in ctx.an.sites(f, Call(cas, on=S + ".cnt"), "must"):
-            site = pt
-            t = f.node(pt)
-            cur = simplify(trace_operand(f, t["args"][1])); new = simplify(trace_operand(f, t["args"][2]))
-            # new == cur - 1
-            def is_sub1(o, base):
-                while o[0] == "field" and o[2] == "(tuple)": o = simplify(o[1])   # checked-sub tuple .0
-                return o[0] == "bin" and o[1] in ("Sub", "SubWithOverflow", "SubUnchecked") and simplify(o[2]) == base and is_const(1)(simplify(o[3]))
-            ok = is_sub1(new, cur)
-        ctx.ob("R-EXIT", T, "cas-decrements-by-one", ok, "try_wait's CAS replaces the observed count c by c-1" if ok else
-               "try_wait's CAS no longer is (c -> c-1): permits are not conserved", f.where(site))
+    ft = ctx.prog.fn(T)
+    fu_sites = sorted(ctx.an.sites(ft, Call(A("fetch_update"), on=S + ".cnt", transitive=False), "must")) if ft is not None else []
+    if fu_sites:
+        # the std idiom: cnt.fetch_update(set, fetch, |c| if c > 0 { Some(c - 1) } else { None }).is_ok()  (same obligations, same keys)
+        t = ft.node(fu_sites[0])
+        cl = [ctx.prog.fns.get(c) for c in closure_args(ft, t)]
+        g = cl[0] if cl and cl[0] is not None else None
+        if g is None:
+            ctx.missing("R-EXIT", T, "cas-only-if-positive", "closure of fetch_update not found")
+        else:
+            some = Agg(r"(std|core)::option::Option", "Some", transitive=False)
+            ctx.guarded(g.id, some, lambda a: a.kind == "cmp" and ((a.op == "Gt" and is_const(0)(a.b)) or (a.op == "Lt" and is_const(0)(a.a))),
+                        "cas-only-if-positive", "try_wait attempts the decrement only while the observed count is > 0 (never takes a permit that is not there)", pred_label="edge `cnt > 0`")
+            ok = False; site = None
+            for pt in g.points():
+                n = g.node(pt)
+                if not g.is_term(pt) and n["s"] == "=" and n["rv"]["r"] == "agg" and n["rv"].get("var") == "Some" and n["rv"]["ops"]:
+                    site = pt
+                    o = simplify(trace_operand(g, n["rv"]["ops"][0]))
+                    while o[0] == "field" and o[2] == "(tuple)": o = simplify(o[1])
+                    ok = o[0] == "bin" and o[1] in ("Sub", "SubWithOverflow", "SubUnchecked") and simplify(o[2])[0] == "arg" and is_const(1)(simplify(o[3]))
+            ctx.ob("R-EXIT", T, "cas-decrements-by-one", ok, "try_wait's update replaces the observed count c by c-1" if ok else
+                   "try_wait's fetch_update closure no longer is (c -> c-1): permits are not conserved", g.where(site) if site else g.where())
+        ro = simplify(trace_local(ft, 0))
+        okr = False
+        if ro[0] == "call" and re.search(r"result::Result::is_ok$", ro[2] or "") is not None:
+            a0 = simplify(trace_operand(ft, ft.term(ro[1])["args"][0]))
+            while a0[0] in ("ref", "deref"): a0 = simplify(a0[1])
+            okr = a0[0] == "call" and a0[1] == fu_sites[0].bb
+        if not okr:
+            # accept `match fetch_update(..) { Ok(_) => true, Err(_) => false }` through the generic guard
+            def ret_true(g2):
+                return [pt for pt in g2.points() if not g2.is_term(pt) and g2.node(pt)["s"] == "=" and not g2.node(pt)["l"]["p"] and g2.node(pt)["l"]["l"] == 0
+                        and g2.node(pt)["rv"]["r"] == "use" and const_int(g2, g2.node(pt)["rv"]["o"]) == 1]
+            ctx.guarded(T, ret_true, variant_of_call(A("fetch_update"), "Ok"), "true-only-on-cas-ok", "try_wait reports success only when its update succeeded", pred_label="edge fetch_update is Ok")
+        else:
+            ctx.ob("R-EXIT", T, "true-only-on-cas-ok", True, "try_wait returns fetch_update(..).is_ok(): success is reported only when the decrement was stored", ft.where(fu_sites[0]))
+        ctx.never(T, SB_PARK, "never-blocks", "try_wait never blocks")
+    else:
+        # try_wait: decrement only by CAS behind cnt > 0
+        T = S + "::try_wait"
+        cas = A("compare_exchange(_weak)?")
+        ctx.guarded(T, Call(cas, on=S + ".cnt"), lambda a: a.kind == "cmp" and a.op in ("Gt",) and is_const(0)(a.b) or (a.kind == "cmp" and a.op == "Lt" and is_const(0)(a.a)),
+                    "cas-only-if-positive", "try_wait attempts the decrement only while the observed count is > 0 (never takes a permit that is not there)",
+                    pred_label="edge `cnt > 0`")
+        def ret_true(g):
+            return [pt for pt in g.points() if not g.is_term(pt) and g.node(pt)["s"] == "=" and not g.node(pt)["l"]["p"] and g.node(pt)["l"]["l"] == 0
+                    and g.node(pt)["rv"]["r"] == "use" and const_int(g, g.node(pt)["rv"]["o"]) == 1]
+        ctx.guarded(T, ret_true, variant_of_call(cas, "Ok"), "true-only-on-cas-ok", "try_wait reports success only when its CAS succeeded", pred_label="edge CAS is Ok")
+        ctx.never(T, SB_PARK, "never-blocks", "try_wait never blocks")
+        # the CAS stores cnt-1
+        f = ctx.fn("R-EXIT", T, "cas-decrements-by-one")
+        if f is not None:
+            ok = False; site = None
+            for pt in ctx.an.sites(f, Call(cas, on=S + ".cnt"), "must"):
+                site = pt
+                t = f.node(pt)
+                cur = simplify(trace_operand(f, t["args"][1])); new = simplify(trace_operand(f, t["args"][2]))
+                # new == cur - 1
+                def is_sub1(o, base):
+                    while o[0] == "field" and o[2] == "(tuple)": o = simplify(o[1])   # checked-sub tuple .0
+                    return o[0] == "bin" and o[1] in ("Sub", "SubWithOverflow", "SubUnchecked") and simplify(o[2]) == base and is_const(1)(simplify(o[3]))
+                ok = is_sub1(new, cur)
+            ctx.ob("R-EXIT", T, "cas-decrements-by-one", ok, "try_wait's CAS replaces the observed count c by c-1" if ok else
+                   "try_wait's CAS no longer is (c -> c-1): permits are not conserved", f.where(site))
     # R-MO
     ctx.mo_floor(S + ".cnt", ("fetch_add",), "REL", "post-release", "what the poster did happens-before the waiter proceeds", only_in=re.escape(P))
     ctx.mo_floor(S + ".cnt", ("fetch_sub",), "ACQ", "wait-acquire", "", only_in=re.escape(W))
-    ctx.mo_floor(S + ".cnt", ("compare_exchange", "compare_exchange_weak"), "ACQ", "trywait-acquire", "", only_in=re.escape(T))
+    ctx.mo_floor(S + ".cnt", ("compare_exchange", "compare_exchange_weak", "fetch_update"), "ACQ", "trywait-acquire", "", only_in=re.escape(T))
 
     # ---- SyncFlag
     FW = F + "::wait_timeout_impl"
